@@ -1498,6 +1498,7 @@ func c03Run(n *c03Node) func(x *h.Ctx, c c03Case) {
 			}
 		}
 		x.Classf("case:keys-created:%d", c03Bucket(len(n.pubs)-s.keysAt))
+		x.Class("node:crypto.storage=" + n.route)
 		if !n.auditSeen {
 			x.Fatalf("the log capture holds no audit record although keys were created: log capture broken")
 		}
